@@ -119,6 +119,10 @@ package server
 //@   trusted queue internals (holder queue): element-level behaviour is the subject of C20; here only the object frame is assumed
 //@   requires lock != nil && lock.command != nil
 //@   ensures C02.push.indexed,C01.push.indexed: implies(self.scaleQueue != nil && isnil(err), has(self.scaleQueue.maps, lock.command.LockId) && self.scaleQueue.maps[lock.command.LockId] == lock)
+//@   loop#1 invariant self.fastQueue == old(self.fastQueue) && implies(old(self.fastIndex) >= 0, 0 <= currentIndex && currentIndex <= i)
+//@   loop#1 backedge C20.holder.compact-keeps,C01.holder.compact-keeps,C02.holder.compact-keeps: implies(old(self.fastIndex) >= 0 && queuedLock != nil && queuedLock.locked > 0, currentIndex == athead(currentIndex) + 1)
+//@   loop#1 backedge C20.holder.compact-keeps,C01.holder.compact-keeps,C02.holder.compact-keeps: implies(old(self.fastIndex) >= 0 && queuedLock != nil && queuedLock.locked > 0, self.fastQueue[athead(currentIndex)] == queuedLock)
+//@   loop#1 backedge C17.holder.compact-releases: implies(queuedLock != nil && queuedLock.locked == 0, queuedLock.refCount == u8(athead(queuedLock.refCount) - 1) && currentIndex == athead(currentIndex) && implies(queuedLock.refCount == 0, calls(FreeLock) == athead(calls(FreeLock)) + 1))
 //@   assumes refDiscipline() && lockSame(lock)
 //@   modifies LockManagerLockQueue.fastIndex, LockManagerLockQueue.fastQueue, LockManagerLockQueue.scaleQueue, LockManager.refCount, LockQueue.*, Lock.aofTime, Lock.command, Lock.data, Lock.isAof, Lock.manager, Lock.protocol, Lock.refCount, E_LJPserver_Lock, E_Pserver_Lock, E_int32, MH_mapLL16JbyteJPserver_Lock, MV_mapLL16JbyteJPserver_Lock
 
@@ -208,6 +212,7 @@ package server
 //@ func (*LockManager).RemoveLock
 //@   requires self != nil && lock != nil && self.freeLocks != nil
 //@   at call LockManagerLockQueue.RemoveLock assert C02.release.unindex,C01.release.unindex: implies(old(self.currentLock) != lock, arg1 == lock.command)
+//@   at call LockManagerLockQueue.RemoveLock assert C17.promote.unindex,C02.promote.unindex,C01.promote.unindex: implies(old(self.currentLock) == lock, arg1 == lockedLock.command && lockedLock.locked > 0)
 //@   ensures C02.release.unindexed,C01.release.unindexed: implies(old(self.currentLock) != lock && old(self.locks) != nil, calls(LockManagerLockQueue.RemoveLock) == 1)
 //@   ensures C02.release.depth,C01.release.depth: lock.locked == 0 && lock.ackCount == 0xff && result == lock
 //@   ensures C01.release.oldest: implies(old(self.currentLock) != lock, self.currentLock == old(self.currentLock))
